@@ -221,3 +221,21 @@ V("_point_dist without abs (C09)", "C09", OPS, "        return 4 * np.abs(np.sqr
 V("crossratio with an unbalanced bracket monomial", "C11", OPS, "        return ac * bd / (ad * bc)", "        return ac * bd / (ad * bd)", "E5.ret", "crossratio")
 V("crossratio drops a bracket", "C11", OPS, "        return ac * bd / (ad * bc)", "        return ac * bd / ad", "E5.ret", "crossratio")
 V("twin: crossratio quotient regrouped", "C11", OPS, "        return ac * bd / (ad * bc)", "        return (ac / ad) * (bd / bc)", "silent")
+
+# ------------------------------------------------------------------------------------------------ C04 element class (K2e)
+V("D18/D19 regression: Tensor arguments skip constructor validation", "C04", BASE, "                self._contravariant_indices = args[0]._contravariant_indices\n                self._validate_tensor()\n                return",
+  "                self._contravariant_indices = args[0]._contravariant_indices\n                return", "E6.K2e", "PointCollection")
+V("from_tensor without the shape fall-back", "C04", BASE, "            try:\n                return cls(tensor, **kwargs)\n            except IncompatibleShapeError:\n                pass\n        return cls._element_class(tensor, **kwargs)",
+  "            return cls(tensor, **kwargs)\n        return cls._element_class(tensor, **kwargs)", "E6.K2e", "SegmentCollection")
+
+# ------------------------------------------------------------------------------------------------ memoised derived values (K4) - found by seeding
+V("dual memoised with cached_property", "C06", CURVE, "    @property\n    def dual(self) -> QuadricTensor:", "    @cached_property\n    def dual(self) -> QuadricTensor:", "E6.K4", "dual",
+  extra=[(CURVE, "from abc import ABC\n", "from abc import ABC\nfrom functools import cached_property\n")])
+V("dual memoised with cached_property (C07)", "C07", CURVE, "    @property\n    def dual(self) -> QuadricTensor:", "    @cached_property\n    def dual(self) -> QuadricTensor:", "E6.K4", "dual",
+  extra=[(CURVE, "from abc import ABC\n", "from abc import ABC\nfrom functools import cached_property\n")])
+V("radius memoised on the instance by hand", "C06", CURVE, "        c = self.array[:-1, -1] / self.array[0, 0]\n        return np.sqrt(c.dot(c) - self.array[-1, -1] / self.array[0, 0])",
+  "        c = self.array[:-1, -1] / self.array[0, 0]\n        self._radius_memo = np.sqrt(c.dot(c) - self.array[-1, -1] / self.array[0, 0])\n        return self._radius_memo", "E6.K4", "_radius_memo")
+# ------------------------------------------------------------------------------------------------ E5 mixed arrays - found by seeding
+V("translation reads the raw offset", "C03", TRANS, "    return affine_transform(offset=offset.normalized_array[:-1])", "    return affine_transform(offset=offset.array[:-1])", "E5.object", "affine_transform")
+V("from_tangent combines raw meet results", "C03", CURVE, "        a1, a2 = Line(a, c).meet(tangent).normalized_array, Line(b, d).meet(tangent).normalized_array\n        b1, b2 = Line(a, b).meet(tangent).normalized_array, Line(c, d).meet(tangent).normalized_array",
+  "        a1, a2 = Line(a, c).meet(tangent).array, Line(b, d).meet(tangent).array\n        b1, b2 = Line(a, b).meet(tangent).array, Line(c, d).meet(tangent).array", "E5.object", "Conic.from_tangent")
